@@ -4,6 +4,7 @@ package main
 
 import (
 	"fmt"
+	"os"
 	"go/ast"
 	"go/token"
 	"go/types"
@@ -339,6 +340,9 @@ func (c *VC) callByContract(st *State, fi *FuncInfo, args []*Term, call *ast.Cal
 	}
 	run2 := &contractRun{phase: 2, old: pre}
 	run2.onEns = func(text string, pos token.Pos, g *State, t *Term) {
+		if os.Getenv("GOVC_DEBUG") != "" {
+			fmt.Fprintf(os.Stderr, "DEBUG callee-ensures %s: %s => %s\n", fi.Name, text, trunc(t.String(), 200))
+		}
 		c.addFact(g.pc, t)
 	}
 	c.runContract(post, K, run2)
